@@ -61,6 +61,7 @@ type Violation struct {
 }
 
 type Sample struct {
+	UF     bool        `json:"uses_hash_uf"`
 	Nondet []NondetVal `json:"nondet"`
 	Reach  []string    `json:"reach"`
 	End    string      `json:"end"`
@@ -734,6 +735,11 @@ func (in *Interp) pathSample(end string) {
 		return
 	}
 	s := Sample{Nondet: in.modelNondets(), Reach: append([]string(nil), in.reach...), End: end}
+	for k := range in.usedStubs {
+		if strings.HasPrefix(k, "hash:") {
+			s.UF = true
+		}
+	}
 	ex.mu.Lock()
 	if ex.endWitness == nil {
 		ex.endWitness = &s
